@@ -131,6 +131,7 @@ struct app {
     sim::broker br;
     std::map<int, op_rec> ops;
     bool recv_loop = false; int next_auto_id = 1000;
+    bool terminal_issued = false;   // the application ended the client: it does not re-arm async_receive
     long long handlers_run = 0;
     bool aborted = false;
 
@@ -212,6 +213,19 @@ struct app {
         jev("cfg").i("hosts", hosts).i("ka", jint(s, "ka", 0)).str("dig", ref::connect_digest(expect)).str("stream", STREAM_KIND).i("nep", w.nep_per_host);
     }
 
+    // the client's own view of the capabilities it holds (connack_properties() snapshot)
+    void caps(jev& e) {
+        namespace P = mq::prop;
+        e.i("h_rm", c->connack_property(P::receive_maximum).value_or(65535))
+         .i("h_mqos", c->connack_property(P::maximum_qos).value_or(2))
+         .i("h_ra", c->connack_property(P::retain_available).value_or(1))
+         .i("h_maxpkt", c->connack_property(P::maximum_packet_size).value_or(0))
+         .i("h_tam", c->connack_property(P::topic_alias_maximum).value_or(0))
+         .i("h_wa", c->connack_property(P::wildcard_subscription_available).value_or(1))
+         .i("h_sha", c->connack_property(P::shared_subscription_available).value_or(1))
+         .i("h_sia", c->connack_property(P::subscription_identifier_available).value_or(1));
+    }
+
     template <class H>
     auto bind(op_rec& o, H h) { return asio::bind_cancellation_slot(o.sig->slot(), std::move(h)); }
 
@@ -238,8 +252,15 @@ struct app {
         auto rp = jprops(s); mq::publish_props pp; from_ref(pp, rp);
         auto& o = new_op(id, "pub" + std::to_string((int) Q));
         in_handler([&] {
-            jev("call").i("op", id).str("kind", o.kind).str("dig", ref::publish_digest(topic, payload, (int) Q, retain, to_ref(pp)))
-                .i("qos", (int) Q).i("nt", 0).str("msg", sim::broker::msg_token(payload));
+            {
+                ref::packet rpk; rpk.type = ref::PUBLISH; rpk.topic = topic; rpk.payload = payload; rpk.qos = (int) Q; rpk.retain = retain; rpk.pid = 1; rpk.props = to_ref(pp);
+                jev e("call");
+                e.i("op", id).str("kind", o.kind).str("dig", ref::publish_digest(topic, payload, (int) Q, retain, to_ref(pp)))
+                 .i("qos", (int) Q).i("nt", 0).str("msg", sim::broker::msg_token(payload))
+                 .i("len", (long long) ref::encode(rpk).size()).i("retain", retain).i("alias", sim::broker::prop_num(rpk.props, 0x23, -1))
+                 .i("wild", 0).i("shared", 0).i("subid", 0);
+                caps(e);
+            }
             o.inside = true;
             if constexpr (Q == mq::qos_e::at_most_once) {
                 c->async_publish<Q>(topic, payload, mq::retain_e(retain), pp, bind(o, [this, id](error_code ec) {
@@ -288,7 +309,16 @@ struct app {
             jev("done").i("op", id).str("kind", o.kind).str("ec", ecname(ec)).i("rc", 0).ilist("codes", codes).str("pdig", ref::props_digest(to_ref(props))).i("inl", o.inside).str("msg", "").str("dig", "");
         };
         in_handler([&] {
-            jev("call").i("op", id).str("kind", o.kind).str("dig", ref::subscribe_digest(rsubs, rp)).i("qos", 0).i("nt", (long long) topics.size()).str("msg", "");
+            {
+                ref::packet rpk; rpk.type = unsub ? ref::UNSUBSCRIBE : ref::SUBSCRIBE; rpk.pid = 1; rpk.subs = rsubs; rpk.props = rp;
+                int wild = 0, shared = 0;
+                for (auto& t : rsubs) { if (t.first.find('#') != std::string::npos || t.first.find('+') != std::string::npos) wild = 1; if (t.first.compare(0, 7, "$share/") == 0) shared = 1; }
+                jev e("call");
+                e.i("op", id).str("kind", o.kind).str("dig", ref::subscribe_digest(rsubs, rp)).i("qos", 0).i("nt", (long long) topics.size()).str("msg", "")
+                 .i("len", (long long) ref::encode(rpk).size()).i("retain", 0).i("alias", -1)
+                 .i("wild", wild).i("shared", shared).i("subid", sim::broker::prop_num(rp, 0x0B, 0) ? 1 : 0);
+                caps(e);
+            }
             o.inside = true;
             if (unsub) { mq::unsubscribe_props up; from_ref(up, rp); c->async_unsubscribe(names, up, bind(o, done)); }
             else { mq::subscribe_props sp; from_ref(sp, rp); c->async_subscribe(topics, sp, bind(o, done)); }
@@ -307,7 +337,7 @@ struct app {
                 jev("done").i("op", id).str("kind", "recv").str("ec", ecname(ec)).i("rc", 0).ilist("codes", {}).str("pdig", "").i("inl", o.inside)
                     .str("msg", ec ? std::string() : sim::broker::msg_token(payload))
                     .str("dig", ec ? std::string() : ref::publish_digest(topic, payload, 0, 0, to_ref(props)));
-                if (recv_loop && ec != asio::error::operation_aborted && c) {
+                if (recv_loop && !terminal_issued && ec != asio::error::operation_aborted && c) {
                     int nid = next_auto_id++;
                     asio::post(ioc, [this, nid] { if (c) do_recv_inner(nid); });
                 }
@@ -325,7 +355,7 @@ struct app {
             jev("done").i("op", id).str("kind", "recv").str("ec", ecname(ec)).i("rc", 0).ilist("codes", {}).str("pdig", "").i("inl", o.inside)
                 .str("msg", ec ? std::string() : sim::broker::msg_token(payload))
                 .str("dig", ec ? std::string() : ref::publish_digest(topic, payload, 0, 0, to_ref(props)));
-            if (recv_loop && ec != asio::error::operation_aborted && c) {
+            if (recv_loop && !terminal_issued && ec != asio::error::operation_aborted && c) {
                 int nid = next_auto_id++;
                 asio::post(ioc, [this, nid] { if (c) do_recv_inner(nid); });
             }
@@ -339,7 +369,13 @@ struct app {
         auto rp = jprops(s); mq::disconnect_props dp; from_ref(dp, rp);
         auto& o = new_op(id, "disc");
         in_handler([&] {
-            jev("call").i("op", id).str("kind", "disc").str("dig", ref::props_digest(rp)).i("qos", rc).i("nt", 0).str("msg", "");
+            {
+                ref::packet rpk; rpk.type = ref::DISCONNECT; rpk.rc = rc; rpk.props = rp;
+                jev e("call");
+                e.i("op", id).str("kind", "disc").str("dig", ref::props_digest(rp)).i("qos", rc).i("nt", 0).str("msg", "")
+                 .i("len", (long long) ref::encode(rpk).size());
+                caps(e);
+            }
             o.inside = true;
             c->async_disconnect(mq::disconnect_rc_e(rc), dp, bind(o, [this, id](error_code ec) {
                 auto& o = ops[id]; ++o.done;
@@ -392,22 +428,23 @@ struct app {
         auto& w = W();
         if (op == "cfg") configure(s);
         else if (!c && op != "destroy" && op != "end") { jev("diverged").str("step", op); return; }
-        else if (op == "run") do_run(id);
+        else if (op == "run") { terminal_issued = false; do_run(id); }
         else if (op == "pub") do_pub(id, s);
         else if (op == "sub") do_sub(id, s, false);
         else if (op == "unsub") do_sub(id, s, true);
         else if (op == "recv") { recv_loop = jint(s, "loop", 0) != 0; do_recv(id); }
-        else if (op == "disc") do_disc(id, s);
+        else if (op == "disc") { terminal_issued = true; do_disc(id, s); }
         else if (op == "cancel_op") {
             auto it = ops.find(id);
             if (it == ops.end() || it->second.done) jev("diverged").str("step", op);
             else {
                 std::string ty = jstrk(s, "type", "total");
                 auto ct = ty == "terminal" ? asio::cancellation_type::terminal : ty == "partial" ? asio::cancellation_type::partial : asio::cancellation_type::total;
+                if (ty == "terminal") terminal_issued = true;
                 in_handler([&] { jev("cancel_op").i("op", id).str("type", ty); it->second.sig->emit(ct); });
             }
         }
-        else if (op == "cancel_all") in_handler([&] { jev("cancel_all"); c->cancel(); jev("cancel_all_ret"); });
+        else if (op == "cancel_all") { terminal_issued = true; in_handler([&] { jev("cancel_all"); c->cancel(); jev("cancel_all_ret"); }); }
         else if (op == "destroy") { in_handler([&] { jev("destroy"); c.reset(); jev("destroy_ret"); }); }
         else if (op == "set") {
             for (auto& kv : s) {
